@@ -28,7 +28,8 @@ class ServerSide(object):
         self.waiter = None
         self.outstanding = False
         self.pulled = []  # events handed to the app via receive()
-        self.sent = []  # events the app sent
+        self.sent = []  # events the server accepted from the app
+        self.attempts = []  # (event, disconnect already handed to the app?) for every send() call
         self.send_calls = 0
         self.fail_send_at = fail_send_at
         self.fail_exc = fail_exc
@@ -68,12 +69,15 @@ class ServerSide(object):
     async def send(self, event):
         n = self.send_calls
         self.send_calls += 1
+        rec = [event, any(e['type'] == 'websocket.disconnect' for e in self.pulled), False]
+        self.attempts.append(rec)
         if self.fail_send_at is not None and n >= self.fail_send_at:
             raise self.fail_exc
         if self.client_gone and event.get('type') == 'websocket.send':
             # what servers do once the peer is gone (a late close is ignored)
             raise OSError('client disconnected')
         self.sent.append(event)
+        rec[2] = True  # accepted by the server
 
 
 class Script(object):
@@ -117,5 +121,8 @@ class Script(object):
                 if out and out[0] == 'raise_out':
                     raise out[1]
             self.at = len(self.ops)
+            # one more gate before returning, so that the loop is drained between the last
+            # operation and whatever the framework does when the responder returns
+            await self.gate(len(self.ops))
         finally:
             self.finished = True
